@@ -242,7 +242,30 @@ func ruleBatchTimer(c *Ctx, r *R) {
 	}
 	r.ok(!errReach && len(pf.Undecided) == 0, "stream.BatchFunc|no-empty-send", batcher.Pos(), "a send of an empty batch on batchC is reachable in the abstract execution of the batcher loop "+strings.Join(pf.Undecided, ";"))
 	// Batch's predicate
-	if pred := c.fn("stream.Batch$1"); pred != nil {
+	pred := c.fn("stream.Batch$1")
+	if bf := c.fn("stream.Batch"); bf != nil {
+		// the predicate handed to BatchFunc, whether a literal or the result of a helper that builds it
+		instrs(bf, func(_ *ssa.BasicBlock, _ int, in ssa.Instruction) {
+			call, ok := in.(*ssa.Call)
+			if !ok {
+				return
+			}
+			if cal := staticCallee(&call.Call); cal == nil || fname(cal) != "BatchFunc" {
+				return
+			}
+			for _, a := range call.Call.Args {
+				if _, isSig := a.Type().Underlying().(*types.Signature); !isSig {
+					continue
+				}
+				for _, v := range throughHelper(a) {
+					if f := resolveFuncValue(v, 0); f != nil {
+						pred = f
+					}
+				}
+			}
+		})
+	}
+	if pred != nil {
 		okPred := false
 		instrs(pred, func(b *ssa.BasicBlock, i int, in ssa.Instruction) {
 			if ret, ok := in.(*ssa.Return); ok && len(ret.Results) == 1 {
